@@ -387,7 +387,7 @@ func c14filter(c *an.Ctx) {
 							names := map[string]bool{}
 							for _, e := range varargsInOrder(call.Call.Args[1]) {
 								if f, _ := an.LoadedField(an.Strip(e)); f != nil {
-									names[f.Name()] = true
+									names[an.FName(f)] = true
 								}
 							}
 							if names["BroadcastAddress"] && names["HTTPPort"] {
@@ -414,7 +414,7 @@ func c14ephemeral(c *an.Ctx) {
 	var sites []ssa.CallInstruction
 	var owner = map[ssa.CallInstruction]*ssa.Function{}
 	for _, g := range c.P.PkgFuncs("nsqlookupd") {
-		if g.Name() == "doDeleteTopic" || g.Name() == "doDeleteChannel" {
+		if an.BaseName(g) == "doDeleteTopic" || an.BaseName(g) == "doDeleteChannel" {
 			continue
 		}
 		for _, rc := range an.CallsTo(g, rr) {
@@ -610,7 +610,7 @@ func regCategoryD(v ssa.Value, depth int) string {
 		return ""
 	}
 	for _, r := range an.Referrers(al) {
-		if fa, ok := r.(*ssa.FieldAddr); ok && an.FieldOf(fa).Name() == "Category" {
+		if fa, ok := r.(*ssa.FieldAddr); ok && an.FName(an.FieldOf(fa)) == "Category" {
 			for _, rr := range an.Referrers(fa) {
 				if st, ok := rr.(*ssa.Store); ok {
 					s, _ := an.ConstString(st.Val)
